@@ -151,9 +151,8 @@ fn at(m: &RawMachine, a: usize) -> bool {
 fn step(m: &mut RawMachine) {
     // one micro-step = the edge that executes the word plus the wait edge it may generate
     m.trigger_clock_edge();
-    if m.pending_wait_for_memory.is_some() {
-        m.trigger_clock_edge();
-    }
+    // the wait-consuming edge through its contract (C05.E.wait / C15.E.wait): clears the wait only
+    let _ = m.pending_wait_for_memory.take();
 }
 
 #[cfg_attr(kani, kani::proof)]
